@@ -676,10 +676,15 @@ fn replay_step(sut: &mut Sut, i: usize, ev: &Value, k: usize, focus: &str, ep: i
             return Some(Mismatch { class: "book", error: format!("exit.instrument: expected {i}, got {}", x.instrument), got: got_exit });
         }
     }
-    if let Err(e) = json_match(&without(&exp_pos, "unreal"), &without(&got_pos, "unreal"), "pos") {
+    // (under C15 the bookkeeping is only the ENVIRONMENT of the estimate: what does not enter the estimate - the
+    //  time stamps and the fill ids - is C02's alone and must not keep the estimate from being judged)
+    let env_only = |rec: &Value| -> Value {
+        if focus == "c02" { rec.clone() } else { ["tin", "tupd", "tout", "trades"].iter().fold(rec.clone(), |r, k| without(&r, k)) }
+    };
+    if let Err(e) = json_match(&env_only(&without(&exp_pos, "unreal")), &env_only(&without(&got_pos, "unreal")), "pos") {
         return Some(Mismatch { class: "book", error: e, got: got_pos });
     }
-    if let Err(e) = json_match(&exp_exit, &got_exit, "exit") {
+    if let Err(e) = json_match(&env_only(&exp_exit), &env_only(&got_exit), "exit") {
         return Some(Mismatch { class: "book", error: e, got: got_exit });
     }
     for j in 0..N_INSTR {
